@@ -2,7 +2,7 @@
    The model is Raft/Core.v (every handler of pkg/raft/raft transcribed, each log.Fatalf an explicit outcome), tied to the
    Go code on every run by the correspondence of Raft/Wire.v.run_case with the real `core` objects. *)
 From Coq Require Import List NArith ZArith.
-From BLB Require Import Lib.LTS Raft.Core Raft.Wire Raft.NodeElect Raft.Election Raft.ElectionExample C02.Proofs.
+From BLB Require Import Lib.LTS Raft.Core Raft.Wire Raft.NodeElect Raft.NodeMono Raft.NodeConf Raft.Election Raft.ElectionFixed Raft.ElectionExample Raft.Mechanisms C02.Proofs.
 Import ListNotations.
 Open Scope N_scope.
 
@@ -43,6 +43,26 @@ Theorem election_safety :
 Proof. exact election_safety_sys. Qed.
 Print Assumptions election_safety.
 
+(* [FULL] clause 1 with the fixed-membership condition on the schedule only: no AddNode or RemoveNode events, bootstraps propose as
+   many members as there are nodes, proposals and snapshot metadata carry no other configuration; all nodes start as
+   followers whose logs hold no other configuration. Under every such schedule - deliveries of any message ever sent to
+   any node in any order and multiplicity, ticks, proposals, snapshots, restarts, crashes after any durable mutation -
+   two nodes recorded as leader of the same term are the same node *)
+Theorem election_safety_fixed_membership :
+  forall (σ0 σ : sys) (sched : list sys_event),
+    sinit2 σ0 ->
+    run sys sys_event (sstep2 (length (sy_nodes σ0))) σ0 sched σ ->
+    forall t a b, In (t, a) (sy_hist σ) -> In (t, b) (sy_hist σ) -> a = b.
+Proof. exact Raft.ElectionFixed.election_safety_fixed_membership. Qed.
+Print Assumptions election_safety_fixed_membership.
+
+(* [FULL] non-vacuity of election_safety_fixed_membership: the concrete run below also satisfies the schedule-level hypotheses *)
+Theorem election_fixed_nonvacuous :
+  exists σ0 sched σ t a,
+    sinit2 σ0 /\ run sys sys_event (sstep2 (length (sy_nodes σ0))) σ0 sched σ /\ In (t, a) (sy_hist σ).
+Proof. exact Raft.ElectionExample.election_fixed_nonvacuous. Qed.
+Print Assumptions election_fixed_nonvacuous.
+
 (* [FULL] non-vacuity of election_safety: a concrete run (bootstrap, time-out, self-election, restart, a tick that crashes after
    its second durable mutation) satisfies every hypothesis and records a leader *)
 Theorem election_safety_nonvacuous :
@@ -57,13 +77,66 @@ Print Assumptions election_safety_nonvacuous.
    carries the durable term and the sender's id, and a granted vote leaves only with exactly that vote durable *)
 Theorem messages_follow_durable_state :
   forall s ev st s', n_msgs s = [] -> run_event s ev = Ret (st, s') -> msgs_ok s'.
-Proof. intros s ev st s' H R. destruct (run_event_sum s ev st s' H R) as [_ [M _]]. exact M. Qed.
+Proof. exact messages_follow_durable_state_lemma. Qed.
 Print Assumptions messages_follow_durable_state.
+
+(* [FULL] commit_monotone, for every node state and every event other than Restart: the commit index never decreases *)
+Theorem commit_monotone :
+  forall s ev st s', ev <> ERestart -> run_event s ev = Ret (st, s') -> n_commit s <= n_commit s'.
+Proof. exact commit_monotone_lemma. Qed.
+Print Assumptions commit_monotone.
+
+(* [PARTIAL] mechanism 1 of clause 3, canGrantVote: a vote is granted only if the voter has not voted for another candidate in this term
+   and the candidate's last log term and index are at least the voter's *)
+Theorem vote_granted_only_to_up_to_date_candidate :
+  forall s from li lt, can_grant_vote s from li lt = Ret true ->
+    (p_vote (n_p s) = 0 \/ p_vote (n_p s) = from) /\
+    exists vt, st_term (n_p s) (last_index (n_p s)) = Ret (vt, true) /\
+               (vt < lt \/ (lt = vt /\ last_index (n_p s) <= li)).
+Proof. exact grant_implies_up_to_date. Qed.
+Print Assumptions vote_granted_only_to_up_to_date_candidate.
+
+(* [PARTIAL] mechanism 2 of clause 3, maybeCommit: whatever the match indices, the leader does not advance its commit index to an entry
+   whose term is not the current term, the Figure 8 guard *)
+Theorem leader_never_commits_earlier_term_by_counting :
+  forall s mi t, find_majority_index s = Ret mi -> n_commit s < mi ->
+    st_term (n_p s) mi = Ret (t, true) -> t <> p_term (n_p s) -> leader_maybe_commit s = Ret s.
+Proof. exact Raft.Mechanisms.leader_never_commits_earlier_term_by_counting. Qed.
+Print Assumptions leader_never_commits_earlier_term_by_counting.
+
+(* [PARTIAL] mechanism 3 of clause 2, consistency check: an AppEnts whose previous index and term are in neither log nor snapshot is
+   answered with a rejection and leaves log, snapshot, term, vote and commit index untouched *)
+Theorem consistency_check_rejects :
+  forall s from pi pt cm oes, has_entry (n_p s) pi pt = Ret false ->
+    exists s', handle_app_ents s from pi pt cm oes = Ret s' /\ n_p s' = n_p s /\ n_commit s' = n_commit s /\
+      exists hint, n_msgs s' = n_msgs s ++ [{| m_term := p_term (n_p s); m_from := n_id s; m_to := from;
+                                              m_fromg := 0; m_tog := 0; m_epoch := 0;
+                                              m_body := AppEntsResp false pi hint |}].
+Proof. exact Raft.Mechanisms.consistency_check_rejects. Qed.
+Print Assumptions consistency_check_rejects.
+
+(* [PARTIAL] mechanism 4, membership change: a reconfiguration request before an entry of the current term is committed hits the sanity
+   Fatalf, both for add and remove *)
+Theorem reconfig_needs_committed_current_term :
+  forall s member rnd t, st_term (n_p s) (n_commit s) = Ret (t, true) -> t <> p_term (n_p s) ->
+    leader_add_node s member rnd = Fatal F_RECONF_BEFORE_NOP /\ leader_remove_node s member = Fatal F_RECONF_BEFORE_NOP.
+Proof. exact Raft.Mechanisms.reconfig_needs_committed_current_term. Qed.
+Print Assumptions reconfig_needs_committed_current_term.
+
+(* [PARTIAL] mechanism 5, HandleMsg: a message with a stale term is never answered and changes nothing but possibly the GUID table *)
+Theorem stale_term_ignored :
+  forall s m s', m_term m < p_term (n_p s) -> handle_msg s m = Ret s' ->
+    n_msgs s' = n_msgs s /\ n_role s' = n_role s /\ n_commit s' = n_commit s /\
+    p_term (n_p s') = p_term (n_p s) /\ p_vote (n_p s') = p_vote (n_p s) /\ p_log (n_p s') = p_log (n_p s) /\
+    p_snap (n_p s') = p_snap (n_p s).
+Proof. exact Raft.Mechanisms.stale_term_ignored. Qed.
+Print Assumptions stale_term_ignored.
 
 (* NOT YET PROVED (statements kept visible; listed in props/C02.json not_yet_proved):
    clause 2  log_matching : in every reachable system state, two logs holding an entry with the same index and term are
              identical up to that index (invariants L1, L2, LM, AM of DESIGN appendix A.1; needs election_safety);
    clause 3  leader_completeness : an entry, once committed, is in the log (or snapshot) of every later leader;
    clause 4  state_machine_safety : no two nodes hand different entries at the same index to TakeNewlyCommitted;
+   commit_le_last, leader_appends_only, match_index_monotone (checked by monitors only);
    and the extension of election_safety to AddNode/RemoveNode (quorums of Members and Members +/- 1 intersect).
    On the real code all four clauses are evaluated after every event by the monitors of the Go simulation. *)
